@@ -384,6 +384,15 @@ func TestTamperedBlocksRejected(t *testing.T) {
 				evid.Count("cell." + cell)
 				desc := fmt.Sprintf("%s of %s", cell, sim.BlockDesc(blk))
 				if err := v.Validate(c); err == nil {
+					// A body without one of its transactions and with ALL commitments recomputed is a different but
+					// consistent block when that transaction leaves no trace in the resulting state (e.g. a free
+					// transaction of an account that the same, validation-finishing block clears as dust): then every
+					// derived field does equal the recomputation. Decided by a differential: both blocks are inserted
+					// on copies and must give the same ledger.
+					if op.op == "drop-tx+txhash+cid+bloom" && sameLedgerAfter(v, blk, c) {
+						evid.Count("tamper.dropped_tx_without_effect")
+						continue
+					}
 					t.Fatalf("tampered block accepted by validation: %s\nhistory:\n%s", desc, h.Summary())
 				}
 				if err := v.AddBlock(c); err == nil {
@@ -411,4 +420,27 @@ func TestTamperedBlocksRejected(t *testing.T) {
 		}
 		sim.RunHistory(t, opt)
 	})
+}
+
+// sameLedgerAfter inserts a and b on two copies of v and reports whether both are accepted and lead to the same
+// roots and the same ledger contents.
+func sameLedgerAfter(v *sim.Replica, a, b *types.Block) bool {
+	mk := func() *sim.Replica {
+		r := &sim.Replica{W: v.W, Name: "differential", Key: v.Key, Addr: v.Addr, Loc: time.UTC, DB: sim.CopyDB(v.DB), Ipfs: v.Ipfs}
+		if err := r.Start(); err != nil {
+			panic(err)
+		}
+		return r
+	}
+	ra, rb := mk(), mk()
+	if ra.AddBlock(a) != nil || rb.AddBlock(b) != nil {
+		return false
+	}
+	if ra.AppState.State.Root() != rb.AppState.State.Root() || ra.AppState.IdentityState.Root() != rb.AppState.IdentityState.Root() {
+		return false
+	}
+	if ra.AppState.State.Root() != a.Root() || rb.AppState.State.Root() != b.Root() {
+		return false
+	}
+	return len(sim.DiffImages(sim.Image(ra.ReadState()), sim.Image(rb.ReadState()), v.W.Name)) == 0
 }
